@@ -78,6 +78,16 @@ def fam_pipelines(seed, big):
                 sc["tree"] = t
                 out.append(sc)
                 i += 1
+    # configured first, extended afterwards: (a | b).stdin(..).stdout(..).stderr_to(..) | c | d keeps what was configured
+    for n in (3, 4):
+        for m in range(2, n):
+            for term, stdin, stdout, stderr in (("capture", "data", "pipe", "capture"), ("join", "file", "file", "file"),
+                                                ("popen", "pipe", "pipe", "file"), ("stream_stdout", "file", "pipe", "inherit"),
+                                                ("join", "null", "file", "inherit")):
+                sc = pl(i, n, "left", stdin, stdout, stderr, term, rng.choice([1, 7, 300]), rng=rng)
+                sc["config_after"] = m
+                out.append(sc)
+                i += 1
     # streaming stages (a generator and cat-like copiers that exert back-pressure), also with a last command that
     # exits at once: everything upstream must then be released by SIGPIPE and the pipeline must finish
     for n in (2, 3, 4):
